@@ -58,6 +58,8 @@ def run(ctx):
         sid += 1
         seqs, _ = nc.expanded_clone(ctx.rng, copies=ctx.rng.randint(66, 80))
         sessions.append(nc.build_session(sid, nc.make_inp("symdel", "lev", 1 + r % 2, seqs), api=("nearest_neighbor", "symdel")[sid % 2], with_internal=False))
+    # the lemmas behind the lifted inputs (copies, common affixes, length fillers) of all search checks, model-checked here once
+    ctx.mc("StringLemmas", "StringLemmas.cfg" if ctx.quick else "StringLemmas_t.cfg", workers=8)
     npx.count_sessions(ctx, sessions)
     verdicts = nc.validate_sessions(ctx, sessions)
     npx.judge_sessions(ctx, sessions, verdicts)
